@@ -64,6 +64,26 @@ def _pure_log(tr, attr):
     return ok
 
 
+def _is_negation_of(c, conj):
+    """Is condition c equivalent to not(d1 and d2 and ...)?  Proved by cases (q.dnf / q.feasible, which answer "feasible" when
+    unsure, so a failure to prove it is possible and a wrong "yes" is not): c together with all of the d's is impossible, and
+    wherever c fails every d holds.  This recognises `not a or (a and not b)` - what an early `return` inside `if a: if b:` leaves
+    on the path - as the negation of `a and b`."""
+    if not conj:
+        return False
+    for case in q.dnf([c] + list(conj)):
+        if q.feasible(case):
+            return False
+    for case in q.dnf([T.mk_not(c)]):
+        if not q.feasible(case):
+            continue
+        for d in conj:
+            for dcase in q.dnf([T.mk_not(d)]):
+                if q.feasible(list(case) + list(dcase)):
+                    return False
+    return True
+
+
 def lab(cell):
     return ",".join("%s=%r" % kv for kv in sorted(cell.items()))
 
@@ -205,6 +225,8 @@ def drift_param(ctx, cname, p, strict, cell):
                 for x in dp:
                     if x.cond == pc.cond or T.mk_not(x.cond) == pc.cond or _neg_of_conj(pc.cond, dp):
                         ok = True
+                if not ok and _is_negation_of(pc.cond, [x.cond for x in dp if not any(x.cond == o.cond for o in e.pc if o is not pc)]):
+                    ok = True   # relative to what the path of e shares with the decision anyway
             if not ok:
                 return False
         return True
@@ -229,7 +251,7 @@ def drift_param(ctx, cname, p, strict, cell):
                         all(any(x.cond == pt or pt in q.conjuncts(x.cond) for pt in parts) for x in dp if T.mentions(x.cond, lambda a: a in taint)) and
                         any(not T.mentions(pt, lambda a: a in taint) for pt in parts) for dp in dpcs)
             state_test = T.mentions(pc.cond, lambda a: a == ("const", "drift")) and (q.is_cmp(pc.cond) or ("", ""))[1] == "!="
-            if not (whole or state_test):
+            if not (whole or state_test or any(_is_negation_of(pc.cond, [x.cond for x in dp if not any(x.cond == o.cond for o in e.pc if o is not pc)]) for dp in dpcs)):
                 return False
         return True
 
